@@ -1675,9 +1675,15 @@ class SoftAbsRegularizedPositiveDefiniteMatrix(
 
     def grad_quadratic_form_inv(self, vector: NDArray) -> NDArray:
         num_j_mtx = self.eigval[:, None] - self.eigval[None, :]
-        num_j_mtx += np.diag(self.grad_softabs(self.unreg_eigval))
         den_j_mtx = self.unreg_eigval[:, None] - self.unreg_eigval[None, :]
-        np.fill_diagonal(den_j_mtx, 1)
+        # Divided differences tend to derivative for coincident eigenvalues (and on
+        # diagonal) so use this limiting value directly to avoid 0 / 0
+        coincident = den_j_mtx == 0
+        num_j_mtx[coincident] = np.broadcast_to(
+            self.grad_softabs(self.unreg_eigval)[:, None],
+            num_j_mtx.shape,
+        )[coincident]
+        den_j_mtx[coincident] = 1
         j_mtx = num_j_mtx / den_j_mtx
         e_vct = (self.eigvec.T @ vector) / self.eigval
         return -((self.eigvec @ (np.outer(e_vct, e_vct) * j_mtx)) @ self.eigvec.T)
